@@ -28,27 +28,30 @@ WrapL(op, e) == IF PrecOf(e) < Prec(op) \/ (PrecOf(e) = Prec(op) /\ op = "**") T
 WrapR(op, e) == IF PrecOf(e) < Prec(op) \/ (PrecOf(e) = Prec(op) /\ op # "**") THEN EPar(e) ELSE e
 
 D1 == {EBin(o, l, r) : o \in Ops \ {"**"}, l \in Leaves, r \in Leaves} \cup {EBin("**", l, x) : l \in Leaves, x \in Exps}
+\* compound positions: the target is a variable, a list element or a field (each target form is desugared by its own code)
 Positions == {"let-int", "let-float", "let-bool", "return-int", "return-float", "arg-int", "arg-float",
-              "compound-int", "compound-float", "const-int", "const-float"}
+              "compound-int", "compound-float", "compound-elem-int", "compound-elem-float", "compound-field-int", "compound-field-float",
+              "const-int", "const-float"}
+CompoundPos == {"compound-int", "compound-float", "compound-elem-int", "compound-elem-float", "compound-field-int", "compound-field-float"}
 CONSTANT Depth
 \* cop: the operator of the compound assignment `m <cop>= e` (compound positions; "+" elsewhere)
 CompoundOps == {"+", "-", "*", "/", "//", "%"}
 VARIABLES e, dep, pos, cop
 Init == pos \in Positions /\ dep = 1
-        /\ e \in (IF pos \in {"compound-int", "compound-float"} THEN D1 \cup Leaves ELSE D1)      \* `m /= 2` as well as `m -= a - u`
-        /\ cop \in (IF pos \in {"compound-int", "compound-float"} THEN CompoundOps ELSE {"+"})
+        /\ e \in (IF pos \in CompoundPos THEN D1 \cup Leaves ELSE D1)      \* `m /= 2` as well as `m -= a - u`
+        /\ cop \in (IF pos \in CompoundPos THEN CompoundOps ELSE {"+"})
 Next == /\ dep < Depth /\ dep' = dep + 1 /\ UNCHANGED <<pos, cop>>
         /\ \/ \E o \in Ops \ {"**"}, l \in Leaves : e' = EBin(o, WrapL(o, e), WrapR(o, l)) \/ e' = EBin(o, WrapL(o, l), WrapR(o, e))
            \/ \E x \in {EInt(2), EId("n")} : e' = EBin("**", WrapL("**", e), x)
         /\ Ty(e') # "err"
 
-Declared == CASE pos \in {"let-int", "return-int", "arg-int", "compound-int", "const-int"} -> "int"
-              [] pos \in {"let-float", "return-float", "arg-float", "compound-float", "const-float"} -> "float"
+Declared == CASE pos \in {"let-int", "return-int", "arg-int", "compound-int", "compound-elem-int", "compound-field-int", "const-int"} -> "int"
+              [] pos \in {"let-float", "return-float", "arg-float", "compound-float", "compound-elem-float", "compound-field-float", "const-float"} -> "float"
               [] OTHER -> "bool"
 \* compound position: `m <cop>= e` with m of the declared kind is `m = m <cop> e`: the result kind of the table must be
 \* the kind of m (so `m /= e` is rejected for every int m); all other positions: declared type must equal the expression's
 AcceptBinding ==
-  IF pos \in {"compound-int", "compound-float"}
+  IF pos \in CompoundPos
     THEN Ty(e) \in {"int", "float"} /\ ResultKind(cop, Declared, Ty(e), "var") = Declared
   ELSE Ty(e) = Declared
 RECURSIVE UsesVar(_)
@@ -65,14 +68,14 @@ SLet(x, ex) == [k |-> "assign", bk |-> "let", name |-> x, ty |-> "", e |-> ex]
 MInit == IF Declared = "int" THEN EInt(1) ELSE EFloat(3, 1)          \* m: int = 1  /  m: float = 1.5
 ValProg == [consts |-> <<>>, fns |-> << [name |-> "main", params |-> <<>>, ret |-> "none",
               body |-> << SLet("a", EInt(7)), SLet("n", EInt(2)), SLet("u", EFloat(5, 1)) >> \o
-                       (IF pos \in {"compound-int", "compound-float"} /\ AcceptBinding
+                       (IF pos \in CompoundPos /\ AcceptBinding
                           THEN << [k |-> "assign", bk |-> "mut", name |-> "m", ty |-> "", e |-> MInit],
                                   [k |-> "compound", name |-> "m", op |-> cop, e |-> e], [k |-> "print", e |-> EId("m")] >>
                         ELSE << [k |-> "print", e |-> e] >>)] >>]
 CaseVal == LET r == Run(ValProg) IN IF r.status = "done" THEN <<r.out[1]>> ELSE <<>>
 ValErr == LET r == Run(ValProg) IN IF r.status = "error" /\ Specified(r) THEN r.err ELSE ""
 \* `m <cop>= l <op> r` means m <cop> (l <op> r): the right-hand side is a group although no parenthesis is written
-CompoundNeedsGrouping == pos \in {"compound-int", "compound-float"} /\ e.k = "bin" /\ Prec(e.op) <= Prec(cop)
+CompoundNeedsGrouping == pos \in CompoundPos /\ e.k = "bin" /\ Prec(e.op) <= Prec(cop)
 ParenExp == e.k = "bin" /\ e.op = "**" /\ e.r.k = "paren"
 Emit == (Ty(e) # "err" /\ PosOK) =>
           PrintT(<<"CASE", ToJson([e |-> e, ty |-> Ty(e), pos |-> pos, declared |-> Declared, accept |-> AcceptBinding, cop |-> cop, cgroup |-> CompoundNeedsGrouping,
